@@ -131,9 +131,9 @@ def audit(prop_id, modules):
                        stderr=subprocess.STDOUT, text=True, timeout=1800)
     out = p.stdout
     res = {n: None for n in names}
-    for m in re.finditer(r"^'(.+?)' depends on axioms: \[([^\]]*)\]", out, re.S | re.M):
+    for m in re.finditer(r"^'([^\n]+?)' depends on axioms: \[([^\]]*)\]", out, re.M):
         res[m.group(1)] = [a.strip() for a in m.group(2).replace('\n', ' ').split(',') if a.strip()]
-    for m in re.finditer(r"^'(.+?)' does not depend on any axioms", out, re.M):
+    for m in re.finditer(r"^'([^\n]+?)' does not depend on any axioms", out, re.M):
         res[m.group(1)] = []
     bad = []
     for n, ax in res.items():
